@@ -1211,6 +1211,11 @@ def solve_sylvester_direct(
         if index[0] < len(eigenvalues) and index[1] < len(eigenvalues):
             return explicit_part(Y, index)
 
+        if index[0] == index[1] == len(eigenvalues):
+            # The implicit block is never fully diagonalized: its diagonal solve is
+            # only requested through the `offdiag` wrapper, which discards it.
+            return zero
+
         if index[0] == len(eigenvalues):
             if greens_functions_left is None:
                 raise NotImplementedError(
